@@ -285,6 +285,7 @@ func scenario(p params, bounds []int) *vexp.Scenario {
 					}
 				}
 			}
+			vrt.Freeze() // tear-down schedules are not explored
 			var oc []string
 			for _, s := range sums {
 				oc = append(oc, s.self+"=>"+s.members+"/L="+s.leader)
@@ -332,6 +333,10 @@ func build(tier string) []*vexp.Scenario {
 	add(params{n: 3, seeds: "two", offsets: []time.Duration{0, 300 * ms, 700 * ms}, fd: 4 * s, confirm: 2 * s}, b0)
 	// schedule deviations on the smallest healthy cluster
 	add(params{n: 2, seeds: "one", offsets: []time.Duration{0, 0}, fd: 4 * s}, b1)
+	// ... and on three nodes joining at the same instant (tree split over workers)
+	out = append(out, vexp.Split(12, func() *vexp.Scenario {
+		return scenario(params{n: 3, seeds: "one", offsets: []time.Duration{0, 0, 0}, fd: 4 * s}, b1)
+	})...)
 	// a self-seeded island that only learns of the others when they contact it (and the other way round), started late
 	for _, fd := range []time.Duration{4 * s, 0} {
 		for _, late := range []time.Duration{700 * ms, 3 * s, 6 * s} {
